@@ -283,7 +283,7 @@ fn gen_text_corpus(rng: &mut Rng, ext: &str) -> Vec<u8> {
             3 => "429496".into(),
             4 => "4294967".into(),
             5 => format!("{}", 4_294_967_295u64 + rng.below(3)),
-            6 => "18446744073709".into(),
+            6 => (*rng.pick(&["18446744073709", "9223372036854", "9223372036853", "9223372036855"])).into(),
             7 => "18446744073710".into(),
             8 => format!("{}", u64::MAX),
             _ => "99999999999999999999".into(),
@@ -293,6 +293,17 @@ fn gen_text_corpus(rng: &mut Rng, ext: &str) -> Vec<u8> {
         };
         format!("{}{}.{}", if rng.chance(1, 8) { "-" } else { "" }, int, frac)
     };
+    // \d in the line grammars is Unicode aware: swap one ASCII digit of a line for a non-ASCII one
+    let uni_digit = |rng: &mut Rng, l: String| -> String {
+        let pos: Vec<usize> = l.char_indices().filter(|(_, c)| c.is_ascii_digit()).map(|(i, _)| i).collect();
+        if pos.is_empty() {
+            return l;
+        }
+        let i = *rng.pick(&pos);
+        let d = *rng.pick(&['\u{662}', '\u{ff11}', '\u{96a}', '\u{1d7d8}']);
+        format!("{}{}{}", &l[..i], d, &l[i + 1..])
+    };
+    let short_tag = |rng: &mut Rng| -> &'static str { *rng.pick(&["\u{e9}", "\u{e9}\u{e9}", "\u{fc}\u{fc}", "\u{20ac}", "ab\u{20ac}", "\u{65e5}\u{672c}", "NoAs", "a\u{e9}b", "\u{e9}_\u{fc}_x_y", "Caf\u{e9}Bar"]) };
     let long_name = |rng: &mut Rng| -> String {
         let l = match rng.below(6) { 0 => 65_480 + rng.usize(80), 1 => 65_536, 2 => 70_000, 3 => 131_072 + rng.usize(3), 4 => 32_768, _ => 255 + rng.usize(3) };
         "T".repeat(l)
@@ -302,7 +313,17 @@ fn gen_text_corpus(rng: &mut Rng, ext: &str) -> Vec<u8> {
             out.push_str(match rng.below(4) { 0 => "date Wed Oct 19 10:15:25.000 am 2022\n", 1 => "date Mit Okt 19 25:61:61.999 2022\n", 2 => "date\n", _ => "" });
             out.push_str(match rng.below(3) { 0 => "base hex  timestamps absolute\n", 1 => "base dec timestamps relative\n", _ => "" });
             for _ in 0..n {
-                let l = match rng.below(15) {
+                let l = match if rng.chance(1, 150) { 15 } else { rng.below(15) } {
+                    15 => {
+                        // a frame whose announced and actual data length is close to the 16-bit limit
+                        let n = 65_500 + rng.usize(36);
+                        let data = vec!["AB"; n].join(" ");
+                        if rng.bool() {
+                            format!("   0.100000 1  2dc             Rx   d {} {}\n", n, data)
+                        } else {
+                            format!("0.200000 CANFD 1 Rx 2dc name 1 0 f {} {}\n", n, data)
+                        }
+                    }
                     13 => {
                         // data field with multi-byte characters at arbitrary byte offsets
                         let n = rng.below(9);
@@ -316,7 +337,7 @@ fn gen_text_corpus(rng: &mut Rng, ext: &str) -> Vec<u8> {
                         let data: String = (0..(3 * n + rng.below(4))).map(|_| *rng.pick(&chars)).collect();
                         format!("{} CANFD {} Rx {:x} name\u{e9} 1 0 {:x} {} {}\n", ts(rng, true), rng.below(300), rng.u32() % 0x800, n % 16, n, data)
                     }
-                    11 => format!("// BusMapping: CAN {} = {}\n", *rng.pick(&[0u32, 1, 31, 255, 256, 99999]), if rng.chance(1, 6) { long_name(rng) } else { "Body".to_string() }),
+                    11 => format!("// BusMapping: CAN {} = {}\n", *rng.pick(&[0u32, 1, 31, 255, 256, 99999]), if rng.chance(1, 6) { long_name(rng) } else if rng.bool() { short_tag(rng).to_string() } else { "Body".to_string() }),
                     12 => format!("// BusMapping: CANFD{}= x\n//\n// {}\n", rng.below(3), String::from_utf8_lossy(&rng.bytes_upto(20))),
                     8 => format!("   {} {}  {:x}             Rx   d {} {}\n", ts(rng, true), rng.below(40), rng.u32() % 0x800, rng.below(9), (0..rng.below(9)).map(|_| format!("{:02X}", rng.u8())).collect::<Vec<_>>().join(" ")),
                     9 => format!("{} CANFD {} Rx {:x} name 1 0 {:x} {} {}\n", ts(rng, true), rng.below(300), rng.u32(), rng.below(16), rng.below(70), (0..rng.below(70)).map(|_| format!("{:02x}", rng.u8())).collect::<Vec<_>>().join(" ")),
@@ -330,16 +351,26 @@ fn gen_text_corpus(rng: &mut Rng, ext: &str) -> Vec<u8> {
                     6 => String::from_utf8_lossy(&rng.bytes_upto(40)).to_string() + "\n",
                     _ => format!("{} {} Statistic: D {} R {} XD 0 XR 0 E 0 O 0 B 0.00%\n", num(rng), num(rng), num(rng), num(rng)),
                 };
+                let l = if rng.chance(1, 10) { uni_digit(rng, l) } else { l };
                 out.push_str(&l);
             }
         }
         "txt" => {
             for _ in 0..n {
-                let l = match rng.below(11) {
+                let l = match rng.below(12) {
+                    11 => {
+                        // threadtime stamp of exactly 18 bytes in which one digit is a multi-byte (Unicode) digit
+                        let (d, k) = *rng.pick(&[('\u{662}', 2usize), ('\u{6f3}', 2), ('\u{ff11}', 3), ('\u{96a}', 3)]);
+                        let frac = "1".repeat(3 - (k - 1));
+                        let base = format!("{:02}-{:02} {:02}:{:02}:{:02}.{}", 1 + rng.below(12), 1 + rng.below(28), rng.below(24), rng.below(60), rng.below(60), frac);
+                        let pos: Vec<usize> = base.char_indices().filter(|(_, c)| c.is_ascii_digit()).map(|(i, _)| i).collect();
+                        let i = *rng.pick(&pos);
+                        format!("{}{}{}  100  200 I MyTag   : unicode digit\n", &base[..i], d, &base[i + 1..])
+                    }
                     9 => format!("  {} {} {} I {}: monotonic line with a long tag\n", ts(rng, false).trim_start_matches('-'), rng.below(100000), rng.below(100000), long_name(rng)),
                     10 => format!("{:02}-{:02} {:02}:{:02}:{:02}.{:03} {} {} W {}: threadtime line with a long tag\n", 1 + rng.below(12), 1 + rng.below(28), rng.below(24), rng.below(60), rng.below(60), rng.below(1000), rng.below(100000), rng.below(100000), long_name(rng)),
-                    7 => format!("  {} {} {} {} {}: monotonic line\n", ts(rng, false).trim_start_matches('-'), rng.below(100000), rng.below(100000), rng.pick(&["I", "D", "E", "W", "V", "F", "X"]), rng.pick(&["Tag", "a b", "ActivityManager"])),
-                    8 => format!("{:02}-{:02} {:02}:{:02}:{:02}.{} {} {} I Tag: threadtime line\n", rng.below(14), rng.below(33), rng.below(25), rng.below(61), rng.below(61), match rng.below(3) { 0 => "999".to_string(), 1 => "99999999999999999999".to_string(), _ => format!("{}", rng.u32()) }, rng.below(100000), rng.below(100000)),
+                    7 => format!("  {} {} {} {} {}: monotonic line\n", ts(rng, false).trim_start_matches('-'), rng.below(100000), rng.below(100000), rng.pick(&["I", "D", "E", "W", "V", "F", "X"]), if rng.chance(1, 3) { short_tag(rng) } else { *rng.pick(&["Tag", "a b", "ActivityManager"]) }),
+                    8 => format!("{:02}-{:02} {:02}:{:02}:{:02}.{} {} {} I {}: threadtime line\n", rng.below(14), rng.below(33), rng.below(25), rng.below(61), rng.below(61), match rng.below(3) { 0 => "999".to_string(), 1 => "99999999999999999999".to_string(), _ => format!("{}", rng.u32()) }, rng.below(100000), rng.below(100000), if rng.chance(1, 3) { short_tag(rng) } else { "Tag" }),
                     0 => format!("{}-{} {}:{}:{}.{} {} {} {} {}: {}\n", num(rng), num(rng), num(rng), num(rng), num(rng), num(rng), num(rng), num(rng), rng.pick(&["I", "D", "E", "W", "V", "F", "X", ""]), rng.pick(&["Tag", "", "a b", "ActivityManager"]), "text with : colons"),
                     1 => "01-01 00:00:00.000  1234  5678 I Tag: text\n".into(),
                     2 => "--------- beginning of main\n".into(),
@@ -348,13 +379,14 @@ fn gen_text_corpus(rng: &mut Rng, ext: &str) -> Vec<u8> {
                     5 => String::from_utf8_lossy(&rng.bytes_upto(60)).to_string() + "\n",
                     _ => format!("{} {} {}\n", num(rng), num(rng), num(rng)),
                 };
+                let l = if rng.chance(1, 8) { uni_digit(rng, l) } else { l };
                 out.push_str(&l);
             }
         }
         _ => {
             for _ in 0..n {
                 let l = match rng.below(10) {
-                    6 => format!("[2{:03}-{:02}-{:02} {:02}:{:02}:{:02}.{:03}] [{}] [{}] message {}\n", rng.below(1000), rng.below(14), rng.below(33), rng.below(25), rng.below(61), rng.below(62), rng.below(1000), rng.pick(&["INF", "WRN", "ERR", "VER", "FAT", "SEV", "DBG", "???", "\u{fc}\u{fc}"]), rng.pick(&["tag", "", "a b", "Component.Sub", "]["]), rng.u32()),
+                    6 => format!("[2{:03}-{:02}-{:02} {:02}:{:02}:{:02}.{:03}] [{}] [{}] message {}\n", rng.below(1000), rng.below(14), rng.below(33), rng.below(25), rng.below(61), rng.below(62), rng.below(1000), rng.pick(&["INF", "WRN", "ERR", "VER", "FAT", "SEV", "DBG", "???", "\u{fc}\u{fc}"]), if rng.chance(1, 3) { short_tag(rng) } else { *rng.pick(&["tag", "", "a b", "Component.Sub", "]["]) }, rng.u32()),
                     7 => format!("[2024-02-29 23:59:59.999] [INF] [{}] long tag\n", long_name(rng)),
                     8 => format!("[2000-01-01 00:00:00.000] [ERR] [t{}] first of a series\n[1999-12-31 23:59:59.999] [ERR] [t] not matching the year pattern\n[2999-12-31 23:59:59.999] [ERR] [t] far future\n", rng.below(5)),
                     9 => format!("[2024-01-01 00:00:00.000] [INF] [tag] {}\n", "m".repeat(*rng.pick(&[0usize, 1, 65_500, 65_536, 70_000]))),
@@ -365,6 +397,7 @@ fn gen_text_corpus(rng: &mut Rng, ext: &str) -> Vec<u8> {
                     4 => format!("{} {}\n", num(rng), "x".repeat(rng.usize(300))),
                     _ => format!("Jan {} {}:{}:{} host proc[{}]: text\n", num(rng), num(rng), num(rng), num(rng), num(rng)),
                 };
+                let l = if rng.chance(1, 8) { uni_digit(rng, l) } else { l };
                 out.push_str(&l);
             }
         }
